@@ -124,6 +124,7 @@ struct PropDef {
   int timeout_ms;      // per-case limit in forked mode
   void (*init)();      // once per process, before the first case (may be null)
   long (*count)() = nullptr; // fault enumeration: how many indices this tier enumerates
+  bool hangViolates = false; // a case that still runs at 10x the per-case limit is a violation (the property says "never loops forever")
 };
 
 // Each harness defines this table (terminated by id == nullptr).
